@@ -38,6 +38,16 @@ def known_sig(t, l, clause):
                 if s['ev'].get('now', 0) < t0 + dl:
                     early = True
     out['join_rearmed'] = rearmed
+    # resume of a parent whose sub-workflow fails inside the resume transaction: the parent task is moved PAUSED -> ERROR by
+    # Task.update() (no routing, next_tasks left NULL)
+    out['parent_task_failed_by_update_at_resume'] = any(
+        st['ev']['kind'] == 'op' and st['ev']['what'] == 'resume' and any(wr['kind'] == 'tk' and wr['frm'] == 'PAUSED' and wr['to'] == 'ERROR'
+                                                                          for wr in st['ev'].get('writes', []))
+        for st in t['steps'][:l])
+    # a join that is DELAYED (wait-after running, or waiting for its retry) is restarted by a _refresh_task_state job
+    out['delayed_join_restarted_by_refresh'] = any(
+        wr['kind'] == 'tk' and wr['frm'] == 'DELAYED' and wr['to'] == 'RUNNING' and st['ev']['what'] == '_refresh_task_state'
+        for st in t['steps'][:l] for wr in st['ev'].get('writes', []))
     # a join with a retry policy waits for its next attempt in WAITING with a delayed refresh job; an older refresh job
     # (one is scheduled per completing inbound task) that runs in between starts the next attempt before the delay is over
     out['retry_join_woken_by_stale_refresh'] = early
